@@ -457,6 +457,201 @@ const COMMANDS: [&str; 14] = [
     r#"{"jsonrpc":"2.0","id":8,"method":"subscribe","params":{"topic":"stats"}}"#,
 ];
 
+// ---------------------------------------------------------------------------------------------
+// The real connection loop of the control socket (control_socket::spawn -> run -> handle):
+// every sequence of <= depth lines from a small alphabet is written to a real Unix socket; the
+// responses must be exactly what the synchronous dispatcher answers to the same lines, in order,
+// and the configuration must end up the same.
+
+fn loop_alphabet() -> Vec<(&'static str, Vec<String>)> {
+    // (name, chunks written to the socket): a symbol is one or more lines, possibly split oddly
+    let l = |s: &str| s.to_string();
+    vec![
+        ("request get_status", vec![l("{\"jsonrpc\":\"2.0\",\"id\":1,\"method\":\"get_status\"}\n")]),
+        ("notification set_mode classic", vec![l("{\"jsonrpc\":\"2.0\",\"method\":\"set_mode\",\"params\":{\"mode\":\"classic\"}}\n")]),
+        ("request set_conn_timeout 60001", vec![l("{\"jsonrpc\":\"2.0\",\"id\":\"t\",\"method\":\"set_conn_timeout\",\"params\":{\"ms\":60001}}\n")]),
+        ("notification set_quality false", vec![l("{\"jsonrpc\":\"2.0\",\"method\":\"set_quality\",\"params\":{\"enabled\":false}}\n")]),
+        ("blank line", vec![l("   \t \r\n")]),
+        ("malformed", vec![l("{\"jsonrpc\":\"2.0\",\"id\":7,\n")]),
+        ("notification of an unknown method", vec![l("{\"jsonrpc\":\"2.0\",\"method\":\"nope\"}\n")]),
+        ("request set_mode enhanced, CRLF, written in two chunks", vec![l("{\"jsonrpc\":\"2.0\",\"id\":2,\"method\":\"set_"), l("mode\",\"params\":{\"mode\":\"enhanced\"}}\r\n")]),
+        ("two requests in one write", vec![l("{\"jsonrpc\":\"2.0\",\"id\":3,\"method\":\"get_status\"}\n{\"jsonrpc\":\"2.0\",\"id\":4,\"method\":\"set_stall_deselect\",\"params\":{\"enabled\":false}}\n")]),
+        ("request with wrong version", vec![l("{\"jsonrpc\":\"1.0\",\"id\":5,\"method\":\"get_status\"}\n")]),
+        ("notification with bad params", vec![l("{\"jsonrpc\":\"2.0\",\"method\":\"set_conn_timeout\",\"params\":{\"ms\":\"x\"}}\n")]),
+        ("request get_stats", vec![l("{\"jsonrpc\":\"2.0\",\"id\":6,\"method\":\"get_stats\"}\n")]),
+    ]
+}
+
+const END_LINE: &str = "{\"jsonrpc\":\"2.0\",\"id\":\"END\",\"method\":\"get_status\"}";
+
+/// One sequence through the real socket loop. Returns (responses, final config).
+fn socket_run(rt: &tokio::runtime::Runtime, sock_path: &str, cfg: &Cfg, alpha: &[(&'static str, Vec<String>)], seq: &[usize]) -> Result<(Vec<String>, Cfg), String> {
+    use tokio::io::{AsyncBufReadExt, AsyncWriteExt, BufReader};
+    let c = cfg.make();
+    let c2 = c.clone();
+    rt.block_on(async move {
+        let _ = std::fs::remove_file(sock_path);
+        let server = srtla_send::control_socket::spawn(sock_path.to_string(), c2, SharedStats::new(), CriticalWindow::new(), SubscriptionHub::new());
+        // wait for the listener
+        let mut stream = None;
+        for _ in 0..2000 {
+            match tokio::net::UnixStream::connect(sock_path).await {
+                Ok(s) => {
+                    stream = Some(s);
+                    break;
+                }
+                Err(_) => tokio::time::sleep(std::time::Duration::from_millis(1)).await,
+            }
+        }
+        let Some(stream) = stream else {
+            server.abort();
+            return Err("control socket did not come up".to_string());
+        };
+        let (rd, mut wr) = stream.into_split();
+        let mut rd = BufReader::new(rd);
+        for i in seq {
+            for chunk in &alpha[*i].1 {
+                wr.write_all(chunk.as_bytes()).await.map_err(|e| e.to_string())?;
+                wr.flush().await.ok();
+                // let the server see the chunk on its own (a split line really arrives in two reads)
+                tokio::task::yield_now().await;
+                tokio::time::sleep(std::time::Duration::from_micros(200)).await;
+            }
+        }
+        wr.write_all(END_LINE.as_bytes()).await.map_err(|e| e.to_string())?;
+        wr.write_all(b"\n").await.map_err(|e| e.to_string())?;
+        let mut got = Vec::new();
+        let mut line = String::new();
+        let mut ended = false;
+        // every request is answered before END's answer; the connection stays open, so read until END (or 3 s)
+        while let Ok(Ok(n)) = tokio::time::timeout(std::time::Duration::from_secs(3), rd.read_line(&mut line)).await {
+            if n == 0 {
+                break;
+            }
+            let t = line.trim().to_string();
+            line.clear();
+            let is_end = serde_json::from_str::<Value>(&t).ok().is_some_and(|v| v["id"] == "END");
+            got.push(t);
+            if is_end {
+                ended = true;
+                break;
+            }
+        }
+        server.abort();
+        let _ = std::fs::remove_file(sock_path);
+        if !ended {
+            got.push("<no answer to the closing request within 3 s>".into());
+        }
+        Ok((got, Cfg::of(&c)))
+    })
+}
+
+/// The same lines through the synchronous dispatcher (the specification of the loop: one line, one dispatch).
+fn reference_run(cx: &Ctx, cfg: &Cfg, alpha: &[(&'static str, Vec<String>)], seq: &[usize]) -> (Vec<String>, Cfg) {
+    let c = cfg.make();
+    let mut text = String::new();
+    for i in seq {
+        for chunk in &alpha[*i].1 {
+            text.push_str(chunk);
+        }
+    }
+    text.push_str(END_LINE);
+    text.push('\n');
+    let mut out = Vec::new();
+    for line in text.split('\n') {
+        let t = line.trim();
+        if t.is_empty() {
+            continue;
+        }
+        if let Some(r) = dispatch(&c, Some(&cx.stats), Some(&cx.crit), t) {
+            out.push(r.to_json());
+        }
+    }
+    (out, Cfg::of(&c))
+}
+
+fn canon_json(s: &str) -> String {
+    serde_json::from_str::<Value>(s).map(|v| v.to_string()).unwrap_or_else(|_| s.to_string())
+}
+
+fn socket_loop_one(rt: &tokio::runtime::Runtime, path: &str, cx: &Ctx, cfg: &Cfg, alpha: &[(&'static str, Vec<String>)], seq: &[usize]) -> Result<(), Fail> {
+    let (got, end_cfg) = socket_run(rt, path, cfg, alpha, seq).map_err(|e| Fail::new("MACHINERY", e))?;
+    let (want, want_cfg) = reference_run(cx, cfg, alpha, seq);
+    let names: Vec<&str> = seq.iter().map(|i| alpha[*i].0).collect();
+    // get_subscription_count and get_status carry no connection-specific data here; compare canonically
+    let g: Vec<String> = got.iter().map(|x| canon_json(x)).collect();
+    let w: Vec<String> = want.iter().map(|x| canon_json(x)).collect();
+    if g != w {
+        return Err(Fail::new(
+            "socket-loop-answers-differ-from-dispatch",
+            format!("lines {names:?} (start config {cfg:?}): the control socket answered {got:?}, the dispatcher answers {want:?} to the same lines"),
+        ));
+    }
+    if format!("{end_cfg:?}") != format!("{want_cfg:?}") {
+        return Err(Fail::new(
+            "socket-loop-config-differs-from-dispatch",
+            format!("lines {names:?}: configuration after the socket run {end_cfg:?}, after dispatching the same lines {want_cfg:?}"),
+        ));
+    }
+    Ok(())
+}
+
+fn socket_loop_exploration(rep: &mut Report, depth: usize) {
+    let alpha = loop_alphabet();
+    let cfgs = start_configs();
+    let cfgs = &cfgs[..cfgs.len().min(2)];
+    let mut seqs: Vec<Vec<usize>> = Vec::new();
+    fn gen_seqs(out: &mut Vec<Vec<usize>>, cur: &mut Vec<usize>, n: usize, depth: usize) {
+        if !cur.is_empty() {
+            out.push(cur.clone());
+        }
+        if cur.len() == depth {
+            return;
+        }
+        for i in 0..n {
+            cur.push(i);
+            gen_seqs(out, cur, n, depth);
+            cur.pop();
+        }
+    }
+    gen_seqs(&mut seqs, &mut Vec::new(), alpha.len(), depth);
+    let jobs: Vec<(usize, usize)> = (0..cfgs.len()).flat_map(|c| (0..seqs.len()).map(move |s| (c, s))).collect();
+    let chunks: Vec<&[(usize, usize)]> = jobs.chunks(64).collect();
+    let fails: Mutex<Vec<(usize, usize, Fail)>> = Mutex::new(Vec::new());
+    let dir = crate::evidence::verif_root().join("target");
+    par_map(chunks.len(), 16, |j| {
+        let rt = tokio::runtime::Builder::new_current_thread().enable_all().build().expect("runtime");
+        let cx = Ctx { stats: SharedStats::new(), crit: CriticalWindow::new() };
+        let path = dir.join(format!(".c18-{}-{j}.sock", std::process::id()));
+        let path = path.to_str().unwrap().to_string();
+        for &(c, sq) in chunks[j] {
+            if let Err(f) = socket_loop_one(&rt, &path, &cx, &cfgs[c], &alpha, &seqs[sq]) {
+                // confirm on a second run before it counts
+                let again = socket_loop_one(&rt, &path, &cx, &cfgs[c], &alpha, &seqs[sq]);
+                let f = match again {
+                    Err(f2) if f2.key == f.key => f,
+                    other => Fail::new("MACHINERY", format!("socket loop: [{}] did not reproduce ({:?})", f.key, other.err().map(|x| x.key))),
+                };
+                fails.lock().unwrap().push((c, sq, f));
+            }
+        }
+    });
+    rep.traces += jobs.len() as u64;
+    rep.transitions += jobs.iter().map(|(_, s)| seqs[*s].len() as u64 + 1).sum::<u64>();
+    rep.set("socket_loop", json!({"alphabet": alpha.iter().map(|a| a.0).collect::<Vec<_>>(), "depth": depth, "sequences": seqs.len(), "start_configurations": cfgs.len(), "runs": jobs.len()}));
+    let mut fl = fails.into_inner().unwrap();
+    fl.sort_by_key(|x| (seqs[x.1].len(), x.1, x.0));
+    for (c, sq, f) in fl {
+        if f.key == "MACHINERY" {
+            if rep.machinery_errors.len() < 4 {
+                rep.machinery_errors.push(f.msg);
+            }
+            continue;
+        }
+        rep.add_violation(Violation { key: f.key.clone(), message: f.msg, replay: json!({"exploration": "socket-loop", "config": c, "sequence": seqs[sq]}) });
+    }
+}
+
 fn start_configs() -> Vec<Cfg> {
     let mut v = vec![Cfg::of(&DynamicConfig::new())];
     for t in [0u64, 999, 1000, 60000, 60001, u64::MAX] {
@@ -478,18 +673,22 @@ enum Op {
     LineTimeout(u64),
 }
 
-fn apply_op(c: &DynamicConfig, op: Op) {
+/// Applies the operation; for the timeout setters returns (requested, value echoed to the caller).
+fn apply_op(c: &DynamicConfig, op: Op) -> Option<(u64, u64)> {
     match op {
         Op::Mode(classic) => c.set_mode(if classic { SchedulingMode::Classic } else { SchedulingMode::Enhanced }),
         Op::Quality(b) => c.set_quality_enabled(b),
         Op::Stall(b) => c.set_stall_deselect(b),
         Op::Timeout(ms) => {
-            c.set_conn_timeout_ms(ms);
+            return Some((ms, c.set_conn_timeout_ms(ms)));
         }
         Op::LineTimeout(ms) => {
-            let _ = dispatch(c, None, None, &format!("{{\"jsonrpc\":\"2.0\",\"method\":\"set_conn_timeout\",\"params\":{{\"ms\":{ms}}}}}"));
+            let r = dispatch(c, None, None, &format!("{{\"jsonrpc\":\"2.0\",\"id\":9,\"method\":\"set_conn_timeout\",\"params\":{{\"ms\":{ms}}}}}")).map(|r| r.to_json());
+            let echoed = r.and_then(|t| serde_json::from_str::<Value>(&t).ok()).and_then(|v| v["result"]["ms"].as_u64().or(v["result"]["conn_timeout_ms"].as_u64()).or(v["result"].as_u64()));
+            return echoed.map(|e| (ms, e));
         }
     }
+    None
 }
 
 struct ConcOut {
@@ -533,13 +732,17 @@ fn conc_one(setters: &[Vec<Op>], readers: usize, bound: usize, cap: u64) -> Conc
     let mut exec = |prefix: &[usize]| -> Result<crate::sched::Execution, (String, String)> {
         let cfg = DynamicConfig::new();
         let seen: Arc<Mutex<Vec<Cfg>>> = Default::default();
+        let echoes: Arc<Mutex<Vec<(u64, u64)>>> = Default::default();
         let mut bodies: Vec<Box<dyn FnOnce() + Send>> = Vec::new();
         for s in setters {
             let c = cfg.clone();
             let ops = s.clone();
+            let echoes = echoes.clone();
             bodies.push(Box::new(move || {
                 for op in ops {
-                    apply_op(&c, op);
+                    if let Some(e) = apply_op(&c, op) {
+                        echoes.lock().unwrap().push(e);
+                    }
                 }
             }));
         }
@@ -570,6 +773,12 @@ fn conc_one(setters: &[Vec<Op>], readers: usize, bound: usize, cap: u64) -> Conc
         let sched: Vec<usize> = x.points.iter().map(|p| p.enabled[p.chosen]).collect();
         let fail = |k: &str, m: String| Err((k.to_string(), format!("{m}; setters {setters:?}; schedule (thread ids) {sched:?}")));
         let snaps = seen.lock().unwrap().clone();
+        // "echoed as applied": every setter is told the value its own request was clamped to
+        for (asked, echoed) in echoes.lock().unwrap().iter() {
+            if *echoed != (*asked).clamp(1000, 60000) {
+                return fail("timeout-echo-is-not-the-applied-value", format!("set_conn_timeout({asked}) was answered {echoed}, the value applied for it is {}", (*asked).clamp(1000, 60000)));
+            }
+        }
         for s in &snaps {
             if !(1000..=60000).contains(&s.timeout) {
                 return fail("snapshot-timeout-outside-clamp", format!("a reader observed conn_timeout_ms = {}", s.timeout));
@@ -738,11 +947,14 @@ pub fn run(tier: Tier) -> Report {
         rep.states += o.outcomes as u64;
     }
     rep.set("concurrency", json!(conc_rows));
+    // ---- (4) the real connection loop of the control socket
+    progress("C18", "line sequences through the real control socket");
+    socket_loop_exploration(&mut rep, if tier.is_quick() { 3 } else { 4 });
     rep.states += outcomes.lock().unwrap().len() as u64;
     rep.samples.push(json!({"line": lines[lines.len() / 2].text, "shape": format!("{:?}", lines[lines.len() / 2].shape)}));
     rep.samples.push(json!({"command_sequence": [COMMANDS[6], COMMANDS[9], COMMANDS[11]]}));
     rep.set("oracle", json!("never panics; reference model over serde_json::Value with the generator's own shape tag: request-shaped object (string jsonrpc, string method) with a non-null id => exactly one response, jsonrpc 2.0, id echoed, exactly one of result/error, error code per the statement's table (-32600 wrong version, -32601 unknown method, -32602 bad parameters), results equal the model's; without id (or id null) => no response and the same state change; not request-shaped => at most one response, and then code -32700 with id null, no state change; configuration after every line equals the six-field model; timeout always within [1000, 60000] and echoed as applied; dispatch, dispatch_async without and with a subscription context answer byte-identically and change the configuration identically for every line whose method is not a subscription method. Concurrency: every value a reader observes was written by somebody (after clamping) or is initial; the timeout is within the clamp in every snapshot; after join every field holds some thread's last write"));
-    rep.assume("bytes that are not valid UTF-8 never reach dispatch(&str); the entry-point read loops (stdin thread, socket task) are not explored");
+    rep.assume("bytes that are not valid UTF-8 never reach dispatch(&str); the stdin read loop (a thread reading the process's stdin) is not explored; the socket connection loop is: every sequence of <= 3 (thorough: 4) symbols of a 12-symbol alphabet (requests, notifications, blank and malformed lines, a line written in two chunks, two lines in one write) is written to a real Unix socket served by control_socket::spawn, and the answers and the resulting configuration must equal those of the synchronous dispatcher on the same lines");
     rep.assume("JSON arrays that positionally spell a request (serde accepts a struct from a sequence) are not specified by the statement: only totality and response shape are judged for them, not their effect");
     rep.assume("thread schedules are sequentially consistent interleavings at atomic-access granularity (every atomic access of DynamicConfig passes through a switch point); weak-memory reorderings of Relaxed atomics are not modelled");
     for v in fails.lock().unwrap().drain(..) {
@@ -757,6 +969,25 @@ pub fn run(tier: Tier) -> Report {
 
 pub fn replay(v: &Value) -> Result<(), String> {
     let cx = Ctx { stats: SharedStats::new(), crit: CriticalWindow::new() };
+    if v["exploration"] == "socket-loop" {
+        let alpha = loop_alphabet();
+        let cfgs = start_configs();
+        let c = v["config"].as_u64().unwrap_or(0) as usize;
+        let seq: Vec<usize> = v["sequence"].as_array().ok_or("MACHINERY: no sequence")?.iter().map(|x| x.as_u64().unwrap_or(0) as usize).collect();
+        let rt = tokio::runtime::Builder::new_current_thread().enable_all().build().map_err(|e| format!("MACHINERY: {e}"))?;
+        let path = crate::evidence::verif_root().join("target").join(format!(".c18-replay-{}.sock", std::process::id()));
+        let path = path.to_str().unwrap().to_string();
+        let r1 = socket_loop_one(&rt, &path, &cx, &cfgs[c.min(cfgs.len() - 1)], &alpha, &seq);
+        let r2 = socket_loop_one(&rt, &path, &cx, &cfgs[c.min(cfgs.len() - 1)], &alpha, &seq);
+        if r1.as_ref().err().map(|f| f.key.clone()) != r2.as_ref().err().map(|f| f.key.clone()) {
+            return Err("MACHINERY: two replays disagree".into());
+        }
+        return match r1 {
+            Ok(()) => Ok(()),
+            Err(f) if f.key == "MACHINERY" => Err(format!("MACHINERY: {}", f.msg)),
+            Err(f) => Err(format!("[{}] {}", f.key, f.msg)),
+        };
+    }
     match v["kind"].as_str() {
         Some("line") => {
             let text = v["text"].as_str().unwrap_or("").to_string();
